@@ -183,7 +183,7 @@ def rule_nl(ctx, prop):
                     rep.violation(f"{f.key} newline-conversion-not-configured",
                                   f"{f.path} converts line feeds to something other than the configured line ending",
                                   f.loc(t["sp"]), cfg)
-        rep.floor("newline conversions inside multi-line tokens", r6, 2, cfg)
+        rep.floor("newline conversions inside multi-line tokens", r6, 1, cfg)
         # (7) indent source decision table
         ci = prog.fn("stylua_lib", "context::create_plain_indent_trivia")
         if rep.anchor(ci is not None, "context::create_plain_indent_trivia", cfg):
